@@ -660,18 +660,44 @@ Fixpoint dedupe (seen : list (option occur * uast)) (l : list (option occur * ua
   | [] => []
   | c :: r => if existsb (clause_eqb c) seen then dedupe seen r else c :: dedupe (c :: seen) r
   end.
-Definition rewrite_clause (c : option occur * uast) : option occur * uast :=
+(* rewrite_ast_clause.  Shape pinned by QG_REWRITE_HOISTS_ONLY_NEGATION:
+   only_neg = false: `(None, Clause [c'])` becomes c' whatever its occur (F164: after deduplication
+     `(b OR b)` / `(b AND b)` is a single Should / Must child, and hoisting it replaces the default
+     occur of the group's position);
+   only_neg = true: only a negation keeps its occur (`a (-b)` = `a -b`, issue #1433). *)
+Definition rewrite_clause_s (only_neg : bool) (c : option occur * uast) : option occur * uast :=
   match c with
-  | (None, Clause [c']) => c'
+  | (None, Clause [c']) =>
+      if only_neg then (if is_mustnot (fst c') then c' else (None, snd c')) else c'
   | _ => c
   end.
-Fixpoint rewrite_ast (a : uast) : uast :=
+Fixpoint rewrite_ast_s (only_neg : bool) (a : uast) : uast :=
   match a with
   | Clause cs =>
-      Clause (map rewrite_clause
+      Clause (map (rewrite_clause_s only_neg)
                 (dedupe [] ((fix go (cs : list (option occur * uast)) :=
-                               match cs with [] => [] | c :: r => (fst c, rewrite_ast (snd c)) :: go r end) cs)))
+                               match cs with [] => [] | c :: r => (fst c, rewrite_ast_s only_neg (snd c)) :: go r end) cs)))
   | _ => a
+  end.
+Definition hoists_only_negation : bool := QG_REWRITE_HOISTS_ONLY_NEGATION =? 1.
+Definition rewrite_ast : uast -> uast := rewrite_ast_s hoists_only_negation.
+
+(* F164: the query contains a group (a clause child without occur) that, after deduplication, has a
+   single child whose occur is Should or Must *)
+Fixpoint F164_ast (a : uast) : bool :=
+  match a with
+  | Clause cs =>
+      (fix go (cs : list (option occur * uast)) : bool :=
+         match cs with
+         | [] => false
+         | c :: r =>
+             (match fst c, rewrite_ast_s true (snd c) with
+              | None, Clause [(Some Should, _)] | None, Clause [(Some Must, _)] => true
+              | _, _ => false
+              end) || F164_ast (snd c) || go r
+         end) cs
+  | Boost a _ => F164_ast a
+  | Leaf _ => false
   end.
 
 Inductive outcome := Ok (u : uast) | Err | Panicked | NoFuel.
@@ -731,7 +757,7 @@ Definition F12_class (s : str) : bool := f12_scan s.
       a quote that opens right after, or closes right before, a word-like character; a `^` / `~`
       whose number is followed by something else than whitespace, `)` or the end (or a slop that
       does not fit u32); a `)` directly followed by a leaf; a `(` directly after a word; a negative
-      number directly followed by a word; a `~` without number; `++`, `**`; any backslash escape. *)
+      number directly followed by a word; a `~` without number; `++`, `**`; a prefix `*` after a quote followed by a leaf; any backslash escape. *)
 Fixpoint has_sub (p s : str) (k : str -> bool) : bool :=
   match s with
   | [] => false
@@ -780,6 +806,15 @@ Fixpoint glue_open (prev : option N) (s : str) : bool :=
   | [] => false
   | c :: t => ((c =? LP) && match prev with Some l => wordish_left l | None => false end) || glue_open (Some c) t
   end.
+(* a prefix star right after a closing quote, directly followed by a leaf *)
+Fixpoint glue_star (prev : option N) (s : str) : bool :=
+  match s with
+  | [] => false
+  | c :: t =>
+      ((c =? STAR) && match prev with Some l => (l =? DQ) || (l =? SQ) | None => false end &&
+       match t with d :: _ => negb (is_ms d || (d =? RP) || (d =? CARET)) | [] => false end)
+      || glue_star (Some c) t
+  end.
 Fixpoint glue_neg (prev : option N) (s : str) : bool :=
   match s with
   | [] => false
@@ -794,7 +829,7 @@ Definition F13_class (s : str) : bool :=
   || has_sub kw_NOT s (fun r => match r with c :: _ => (c =? 9) || (c =? 13) || (c =? 10) | [] => false end)
   || has_sub kw_NOT s kw_then_colon || has_sub kw_AND s kw_then_colon
   || has_sub kw_OR s kw_then_colon || has_sub kw_IN s kw_then_colon
-  || glue_quote 0 None s || glue_num s || glue_paren s || glue_open None s || glue_neg None s
+  || glue_quote 0 None s || glue_num s || glue_paren s || glue_open None s || glue_neg None s || glue_star None s
   || in_tab BSL s || has_sub [PLUS; PLUS] s (fun _ => true) || has_sub [STAR; STAR] s (fun _ => true).
 
 (* F160: field_name accepts tab / CR / LF inside a field name (only the space character is in
